@@ -39,6 +39,8 @@ def gen_case(rng, quick, wide=False):
     proc = ob["prDIS"]
     pto = rng.choice([0, 1, 2, 3, 3] if wide else ([0, 1, 1] if quick else [0, 1, 1, 2, 3]))
     Q2 = rng.choice([common.dyadic(rng, 4.0, 64.0, 6), common.dyadic(rng, 30.0, 2000.0, 8)])
+    if rng.random() < (0.35 if wide else 0.12):
+        Q2 = rng.choice([40000.0, 65536.0])       # above the top matching scale: six active flavours
     x = rng.choice([0.125, 0.25, 0.5, common.dyadic(rng, 0.02, 0.8, 10)])
     th.update(PTO=pto, PTODIS=pto, RenScaleVar=rng.random() < 0.5, FactScaleVar=rng.random() < 0.5,
               mc=1.5, mb=4.5, mt=173.0)
